@@ -365,3 +365,4 @@ def run(S):
     shared.key_order(S)
     shared.value_words(S)
     shared.names(S, ('yakushima::get', 'yakushima::put', 'yakushima::remove'))
+    shared.gc_safety(S)
